@@ -78,9 +78,24 @@ def _theory():
     return {"mc": 1.5, "mb": 4.5, "Qmc": 1.5, "Qmb": 4.5, "RenScaleVar": False, "FactScaleVar": False}
 
 
+def _states_grids(seed):
+    """CC slow-rescaling states on a linear and on a degree-5 grid."""
+    out = []
+    for g, hq, q2 in itertools.product(["L7", "D5"], MASSES, [3.0, 27.0, 900.0]):
+        m = MASSES[hq]
+        lam = 1.0 / (1.0 + m * m / q2)
+        for lab, xi in (("xi=1-", 1 - 1e-9), ("xi=1+", 1 + 1e-9), ("xi=0.5", 0.5), ("xi=0.9", 0.9)):
+            x = xi * lam
+            if x < cards.GRIDS[g][0][0] * 1.01 or x > 1:
+                continue
+            for kind in ("F2", "F3"):
+                out.append({"t": "cc", "hq": hq, "Q2": q2, "variant": lab, "x": x, "kind": kind, "projectile": "antineutrino", "grid": g})
+    return out
+
+
 def states(tier, seed):
     """quick = the full base lattice; thorough = base lattice + the deep extension."""
-    base = _states_base("thorough", seed)
+    base = _states_base("thorough", seed) + _states_grids(seed)
     if tier == "quick":
         return base
     seen = {digest(s) for s in base}
@@ -188,7 +203,7 @@ def _cc(st):
     q2, x = st["Q2"], st["x"]
     xi_ref = x * (1.0 + m * m / q2)
     name = cards.obsname(st["kind"], st["hq"])
-    cell = {"scheme": "FFNS3", "process": "CC", "projectile": st["projectile"], "pto": 1, "theory": _theory()}
+    cell = {"scheme": "FFNS3", "process": "CC", "projectile": st["projectile"], "pto": 1, "theory": _theory(), "grid": st.get("grid", "G6")}
     try:
         r = yrun.runner(cell, {name: [cards.kin(x, q2)]})
         esf = r.observables[name].elements[0]
@@ -198,7 +213,7 @@ def _cc(st):
         info = yrun.classify_exception(e)
         return {"violations": [_v(st, "run-failed", f"{name} CC failed: {info['exc']} at {info['site']}: {info['excmsg']}")], "nontrivial": True, "outcome": "failed", "transitions": 1}
     viol = []
-    basis = ref_basis.RefBasis(*cards.grid("G6"))
+    basis = ref_basis.RefBasis(*cards.grid(st.get("grid", "G6")))
     n = basis.n
     pred = {o: np.zeros((14, n)) for o in (0, 1)}
     scale = {o: np.zeros((14, n)) for o in (0, 1)}
